@@ -16,23 +16,31 @@ var c08directedCases = []struct {
 	files map[string]string
 	main  string
 	want  string
+	// parseSrc: the executed template is not loaded but handed to Set.Parse under the name main
+	parseSrc string
 }{
-	{"recursive-block", map[string]string{"/t.jet": `{{block rec(n=0)}}[{{n}}{{if n > 0}}{{yield rec(n=n-1)}}{{end}}]{{end}}|{{yield rec(n=3)}}`}, "/t.jet", "[0]|[3[2[1[0]]]]"},
-	{"recursive-over-data", map[string]string{"/t.jet": `{{block tree()}}({{.name}}{{range .kids}}{{yield tree() .}}{{end}}){{end}}`}, "/t.jet", "(root(a(a1)(a2))(b))"},
-	{"argument-order-and-defaults", map[string]string{"/t.jet": `{{block b(x="dx", y="dy", z="dz")}}<{{x}},{{y}},{{z}}>{{end}}|{{yield b(z="Z", x="X")}}|{{yield b(y="Y")}}|{{yield b(y="Y", z="Z", x="X")}}|{{yield b()}}`}, "/t.jet", "<dx,dy,dz>|<X,dy,Z>|<dx,Y,dz>|<X,Y,Z>|<dx,dy,dz>"},
+	{"recursive-block", map[string]string{"/t.jet": `{{block rec(n=0)}}[{{n}}{{if n > 0}}{{yield rec(n=n-1)}}{{end}}]{{end}}|{{yield rec(n=3)}}`}, "/t.jet", "[0]|[3[2[1[0]]]]", ""},
+	{"recursive-over-data", map[string]string{"/t.jet": `{{block tree()}}({{.name}}{{range .kids}}{{yield tree() .}}{{end}}){{end}}`}, "/t.jet", "(root(a(a1)(a2))(b))", ""},
+	{"argument-order-and-defaults", map[string]string{"/t.jet": `{{block b(x="dx", y="dy", z="dz")}}<{{x}},{{y}},{{z}}>{{end}}|{{yield b(z="Z", x="X")}}|{{yield b(y="Y")}}|{{yield b(y="Y", z="Z", x="X")}}|{{yield b()}}`}, "/t.jet", "<dx,dy,dz>|<X,dy,Z>|<dx,Y,dz>|<X,Y,Z>|<dx,dy,dz>", ""},
 	{"definition-site-in-root-uses-most-derived", map[string]string{
 		"/root.jet": `R[{{block a(p="rp")}}root-a:{{p}}{{end}}|{{block b()}}root-b{{end}}|{{yield a(p="yp")}}]`,
 		"/mid.jet":  `{{extends "/root.jet"}}{{block a(p="mp")}}mid-a:{{p}}{{end}}ignored`,
 		"/leaf.jet": `{{extends "/mid.jet"}}{{import "/lib.jet"}}{{block b()}}leaf-b{{yield c()}}{{end}}ignored`,
 		"/lib.jet":  `{{block a(p="lp")}}lib-a:{{p}}{{end}}{{block c()}}lib-c{{end}}text-of-import-renders-nothing`,
-	}, "/leaf.jet", "R[lib-a:lp|leaf-blib-c|lib-a:yp]"},
+	}, "/leaf.jet", "R[lib-a:lp|leaf-blib-c|lib-a:yp]", ""},
 	{"later-import-wins-over-earlier-and-extends", map[string]string{
 		"/root.jet": `{{yield t()}}|{{yield u()}}|{{yield v()}}`,
 		"/page.jet": `{{extends "/root.jet"}}{{import "/l1.jet"}}{{import "/l2.jet"}}{{block v()}}page-v{{end}}`,
 		"/l1.jet":   `{{block t()}}l1-t{{end}}{{block u()}}l1-u{{end}}{{block v()}}l1-v{{end}}`,
 		"/l2.jet":   `{{block t()}}l2-t{{end}}`,
-	}, "/page.jet", "l2-t|l1-u|page-v"},
-	{"content-in-callers-scope-and-default-content", map[string]string{"/t.jet": `{{block w()}}<{{x := "block-local"}}{{yield content}}>{{content}}default{{end}}|{{x := "caller"}}{{yield w() content}}{{x}}{{end}}|{{yield w() content}}{{yield w() content}}inner-{{x}}{{end}}{{end}}`}, "/t.jet", "<default>|<caller>|<<inner-caller>>"},
+	}, "/page.jet", "l2-t|l1-u|page-v", ""},
+	// a variant parsed under the name of the very template it extends (the loader keeps the original): still a chain of
+	// two templates whose root is rendered with the variant's blocks
+	{"parsed-variant-extends-its-namesake", map[string]string{"/layout.jet": `L[{{block b()}}layout-b{{end}}|{{block c()}}layout-c{{end}}]`}, "/layout.jet", "L[variant-b|layout-c]",
+		`{{extends "/layout.jet"}}{{block b()}}variant-b{{end}}text of the variant outside blocks`},
+	{"parsed-variant-extends-its-namesake-through-a-middle-template", map[string]string{"/layout.jet": `L[{{block b()}}layout-b{{end}}|{{block c()}}layout-c{{end}}]`, "/mid.jet": `{{extends "/layout.jet"}}{{block c()}}mid-c{{end}}`}, "/mid.jet", "L[variant-b|mid-c]",
+		`{{extends "/mid.jet"}}{{block b()}}variant-b{{end}}outside`},
+	{"content-in-callers-scope-and-default-content", map[string]string{"/t.jet": `{{block w()}}<{{x := "block-local"}}{{yield content}}>{{content}}default{{end}}|{{x := "caller"}}{{yield w() content}}{{x}}{{end}}|{{yield w() content}}{{yield w() content}}inner-{{x}}{{end}}{{end}}`}, "/t.jet", "<default>|<caller>|<<inner-caller>>", ""},
 }
 
 var c08nDirected = len(c08directedCases)
@@ -50,6 +58,14 @@ func c08directedCase(c *fw.Ctx, idx int) bool {
 			map[string]interface{}{"name": "a", "kids": []interface{}{leaf("a1"), leaf("a2")}}, leaf("b")}}
 	}
 	res := jx.Run(d.files, d.main, jet.VarMap{}, data, jx.NoEscape)
+	if d.parseSrc != "" {
+		set, _ := jx.NewSet(d.files, jx.NoEscape)
+		t, err, pan := jx.Parse(set, d.main, d.parseSrc)
+		res = jx.Res{ParseErr: err, Panic: pan}
+		if err == nil && pan == nil {
+			res = jx.Exec(t, jet.VarMap{}, data)
+		}
+	}
 	if res.Failed() || res.Out != d.want {
 		c.Violation("c08:directed:"+d.name, "", fmt.Sprintf("want %q, got %s", d.want, res))
 	}
